@@ -18,7 +18,7 @@ func init() {
 // mapRangeSites lists every `range` over a map in gocc's own packages (from SSA), and whether
 // a goroutine is ever started.
 func mapRangeSites() (sites []string, goStmts []string, err error) {
-	prog, _, err := engine.LoadProgram(engine.LoadCfg{Dir: "/repo", Patterns: []string{"."}, Env: GoEnv()})
+	prog, _, err := engine.LoadProgram(engine.LoadCfg{Dir: RepoRoot, Patterns: []string{"."}, Env: GoEnv()})
 	if err != nil {
 		return nil, nil, err
 	}
